@@ -51,8 +51,8 @@ claim("C04", "Coq proof (fuel bounds: LZSS loop, search resumption, CHM chunk wa
       "Proof: the LZSS port returns within |input|+1 iterations on every input and buffer size; cabd_find resumes strictly after every candidate header; the (repaired) fast_find walk ends within num_chunks visits whatever the chunk links say. All other loops (inflate, LZX, Quantum, LZH, block readers, OAB) are bounded on the C side only: edges executed per API call vs a budget linear in input+output bytes, hang detection by edge cap - partial.",
       NOTE, "4/C04")
 
-claim("C13", "Coq proof (associativity of the list-level merge) + all join orders / refusal scenarios on the C library",
-      "Proof: the merge of folder and file lists (absorbing the continued folder with the shared block counted once, deleting the duplicate continued-file entries) gives the same lists whichever adjacent pair is joined first, for multi-folder and single-folder middle parts. The pointer-level mechanics of cabd_merge (list-head propagation, refusal checks before mutation, close from any member) are tied by the oracle only: every permutation of the adjacent joins with random append/prepend on generated sets, identical lists from every member, extraction of every member, refused joins leaving listings unchanged with a clean ledger - partial.",
+claim("C13", "Coq proof (associativity of the list-level merge; the executable model of cabd_merge refines it) + executable set model vs the C library + all join orders / refusal scenarios",
+      "Proof: the merge of folder and file lists (absorbing the continued folder with the shared block counted once, deleting the duplicate continued-file entries) gives the same lists whichever adjacent pair is joined first, for multi-folder and single-folder middle parts. Model/CabSet.v, an executable model of cabd_merge / cabd_can_merge_folders / extraction over joined sets with the object identities cabd.c compares, is run against the C library (all join orders, refused joins, damaged parts) and its list surgery is proved to be the abstract merge (C13_executable_merge_is_abstract_merge). The remaining pointer-level mechanics (list-head propagation to every member, close from any member) are tied by the oracle: every permutation of the adjacent joins with random append/prepend on generated sets, identical lists from every member, extraction of every member, refused joins leaving listings unchanged with a clean ledger - partial.",
       NOTE, "4/C13")
 
 claim("C14", "Coq proof (buffer-size independence of the scanner, signature recognition from any prefix state, soundness) + extracted search loop vs C search() + embedded-cabinet oracle",
